@@ -6,6 +6,7 @@ import (
 	"fmt"
 	"go/token"
 	"go/types"
+	"strings"
 
 	"golang.org/x/tools/go/ssa"
 )
@@ -35,6 +36,8 @@ type chanOp struct {
 }
 
 // chanClass names the identity class of a channel value.
+var chanClassDepth int
+
 func chanClass(p *Prog, v ssa.Value) string {
 	v0 := v
 	// a channel variable captured by reference through nested closures: follow the bindings to the cell
@@ -70,6 +73,27 @@ func chanClass(p *Prog, v ssa.Value) string {
 		n := calleeName(x)
 		if n == "time.After" || n == "time.Tick" {
 			return "timer"
+		}
+		// an accessor: a repository function all of whose returns hand out the same channel field
+		if callee := staticCallee(x); callee != nil && callee.Blocks != nil && p.IsRepoFn(callee) && callee.Signature.Results().Len() == 1 && chanClassDepth < 3 {
+			chanClassDepth++
+			cls := ""
+			same := true
+			for _, r := range returnsOf(callee) {
+				c2 := chanClass(p, r.Results[0])
+				if strings.HasPrefix(c2, "call:") || strings.HasPrefix(c2, "param:") || strings.HasPrefix(c2, "local:") || c2 == "?" || c2 == "phi" || c2 == "extract" {
+					same = false
+				}
+				if cls == "" {
+					cls = c2
+				} else if cls != c2 {
+					same = false
+				}
+			}
+			chanClassDepth--
+			if same && cls != "" {
+				return cls
+			}
 		}
 		return "call:" + n
 	case *ssa.Parameter:
@@ -122,6 +146,51 @@ func isTimerChan(v ssa.Value) bool {
 		return true
 	}
 	return false
+}
+
+// timerDurationOf: the constant duration after which the timer channel v fires -
+// time.After(d), or the C field of a timer made by time.NewTimer(d) in the same
+// function (every Reset of that timer must carry the same constant). -1 if
+// unknown.
+func timerDurationOf(v ssa.Value) int64 {
+	v = strip(v)
+	if c, ok := v.(*ssa.Call); ok {
+		if n := calleeName(c); n == "time.After" || n == "time.Tick" {
+			if d, okd := constInt(c.Call.Args[0]); okd {
+				return d
+			}
+		}
+		return -1
+	}
+	base, f, ok := fieldLoad(v)
+	if !ok || f.Name() != "C" {
+		return -1
+	}
+	var d int64 = -1
+	flows(base, func(w ssa.Value) bool {
+		cc, _, okc := callResult(w)
+		if !okc {
+			return false
+		}
+		if n := calleeName(cc); n == "time.NewTimer" || n == "time.NewTicker" {
+			if k, okk := constInt(cc.Call.Args[0]); okk {
+				d = k
+			}
+			// a Reset with another duration changes the bound
+			if cv, isV := interface{}(cc).(ssa.Value); isV && cv.Referrers() != nil {
+				for _, r := range *cv.Referrers() {
+					if rc, isCall := r.(ssa.CallInstruction); isCall && strings.HasSuffix(calleeName(rc), "time.Timer).Reset") {
+						if k2, ok2 := constInt(rc.Common().Args[1]); !ok2 || k2 != d {
+							d = -1
+						}
+					}
+				}
+			}
+			return true
+		}
+		return false
+	})
+	return d
 }
 
 // chanOpsIn lists the channel operations of fn.
